@@ -184,15 +184,8 @@ public:
 	{
 		if (this == &b)
 			return;
-		if (--_rc() == 0) {
-#ifdef ASL_VERIF
-			asl_verif_point(3, &_rc());
-#endif
-			clear();
-			asl_destroy((AtomicCount*)&a[1]);
-		}
-		a = b.a;
-		++_rc();
+		HashMap old(b); // take b's table first: b may be stored in a node of the table released here (m = m[k].children)
+		bswap(a, old.a);
 	}
 
 	~HashMap()
